@@ -442,5 +442,14 @@ def build_unit(name, template_text, sources):
             lines.extend(gl)
             items.append((spec, it, first, len(lines)))
             idx += 1
-    # sentinel: must be rejected by the verifier, otherwise the assumptions are inconsistent
+    # declarations generated by rewrite rules (R9) go right before the end of the verus! block
+    decls = log.get('decls', [])
+    if decls:
+        k = len(lines) - 1
+        while k >= 0 and not lines[k].text.startswith('} // verus!'):
+            k -= 1
+        if k < 0:
+            raise ExtractError('template has no `} // verus!` line')
+        gen = [GenLine(l, ('tmpl', 0)) for d in decls for l in d.split('\n')]
+        lines[k:k] = gen
     return Unit(name, lines, items, log)
